@@ -17,28 +17,28 @@ theorem CallRng.mono {ne ne' : Nat} {c : Expr × EId} (h : CallRng ne c) (h1 : n
 /-- the invariant of a loop that collects prepared applications -/
 def callsInv2 (s s1 : St) {β} : PostCond (β × List (Expr × EId)) PS :=
   ⟨fun (_, calls) st => ⌜Safe st ∧ Le s st ∧ SzLe s1 st ∧ ∀ c ∈ calls, CallRng st.envs.size c⌝,
-   fun e st => ⌜Safe st ∧ Good2 e⌝, fun _ => ⌜True⌝, ()⟩
+   fun e st => ⌜Safe st ∧ Good2 e ∧ SzLe s st⌝, fun _ => ⌜True⌝, ()⟩
 
 /-- the invariant of a loop with an accumulated value -/
 def valInv (s s1 : St) {β} : PostCond (β × Value) PS :=
   ⟨fun (_, acc) st => ⌜Safe st ∧ Le s st ∧ SzLe s1 st ∧ ValOk st.thunks.size st.objs.size st.funcs.size acc⌝,
-   fun e st => ⌜Safe st ∧ Good2 e⌝, fun _ => ⌜True⌝, ()⟩
+   fun e st => ⌜Safe st ∧ Good2 e ∧ SzLe s st⌝, fun _ => ⌜True⌝, ()⟩
 
 /-- the invariant of a loop that may return a value early -/
 def retInv (s s1 : St) {β} : PostCond (β × (Option Value × Unit)) PS :=
   ⟨fun (_, r) st => ⌜Safe st ∧ Le s st ∧ SzLe s1 st ∧
       ∀ v, r.1 = some v → ValOk st.thunks.size st.objs.size st.funcs.size v⌝,
-   fun e st => ⌜Safe st ∧ Good2 e⌝, fun _ => ⌜True⌝, ()⟩
+   fun e st => ⌜Safe st ∧ Good2 e ∧ SzLe s st⌝, fun _ => ⌜True⌝, ()⟩
 
 /-- the invariant of the loop of `std.join` on arrays -/
 def joinInvB (s s1 : St) {β} : PostCond (β × (List TId × Bool)) PS :=
   ⟨fun (_, r) st => ⌜Safe st ∧ Le s st ∧ SzLe s1 st ∧ ∀ t ∈ r.1, t < st.thunks.size⌝,
-   fun e st => ⌜Safe st ∧ Good2 e⌝, fun _ => ⌜True⌝, ()⟩
+   fun e st => ⌜Safe st ∧ Good2 e ∧ SzLe s st⌝, fun _ => ⌜True⌝, ()⟩
 
 /-- the invariant of the loop of `std.mapWithKey` -/
 def fieldsInv (s s1 : St) {β} : PostCond (β × List Field) PS :=
   ⟨fun (_, fields) st => ⌜Safe st ∧ Le s st ∧ SzLe s1 st ∧ ∀ f ∈ fields, FieldRng st.thunks.size st.envs.size f⌝,
-   fun e st => ⌜Safe st ∧ Good2 e⌝, fun _ => ⌜True⌝, ()⟩
+   fun e st => ⌜Safe st ∧ Good2 e ∧ SzLe s st⌝, fun _ => ⌜True⌝, ()⟩
 
 /-- values in range -/
 def ValsOk (st : St) (vs : List Value) : Prop :=
@@ -64,24 +64,24 @@ theorem ValsOk.get {a b : St} {vs : List Value} {v : Value} {i : Nat} (h : ValsO
 /-- the invariant of the loops of `std_sortKeys` that collect the keys -/
 def keysInv (s s1 : St) {α} {l : List α} : PostCond (List.Cursor l × List Value) PS :=
   ⟨fun (cur, keys) st => ⌜Safe st ∧ Le s st ∧ SzLe s1 st ∧ keys.length = cur.prefix.length ∧ ValsOk st keys⌝,
-   fun e st => ⌜Safe st ∧ Good2 e⌝, fun _ => ⌜True⌝, ()⟩
+   fun e st => ⌜Safe st ∧ Good2 e ∧ SzLe s st⌝, fun _ => ⌜True⌝, ()⟩
 
 /-- the invariant of the loop of `std_sortKeys` that prepares the applications -/
 def callsLenInv (s s1 : St) {α} {l : List α} : PostCond (List.Cursor l × List (Expr × EId)) PS :=
   ⟨fun (cur, calls) st => ⌜Safe st ∧ Le s st ∧ SzLe s1 st ∧ calls.length = cur.prefix.length ∧
       ∀ c ∈ calls, CallRng st.envs.size c⌝,
-   fun e st => ⌜Safe st ∧ Good2 e⌝, fun _ => ⌜True⌝, ()⟩
+   fun e st => ⌜Safe st ∧ Good2 e ∧ SzLe s st⌝, fun _ => ⌜True⌝, ()⟩
 
 /-- the invariant of the partition loop of `std_qsort` -/
 def partInv (s s1 : St) (n : Nat) {β} : PostCond (β × (List Nat × List Nat)) PS :=
   ⟨fun (_, r) st => ⌜Safe st ∧ Le s st ∧ SzLe s1 st ∧ (∀ i ∈ r.1, i < n) ∧ ∀ i ∈ r.2, i < n⌝,
-   fun e st => ⌜Safe st ∧ Good2 e⌝, fun _ => ⌜True⌝, ()⟩
+   fun e st => ⌜Safe st ∧ Good2 e ∧ SzLe s st⌝, fun _ => ⌜True⌝, ()⟩
 
 /-- the invariant of the last loop of `std_sortSet` -/
 def uniqInv (s s1 : St) {β} : PostCond (β × (List TId × Option Value)) PS :=
   ⟨fun (_, r) st => ⌜Safe st ∧ Le s st ∧ SzLe s1 st ∧ (∀ t ∈ r.1, t < st.thunks.size) ∧
       ∀ v, r.2 = some v → ValOk st.thunks.size st.objs.size st.funcs.size v⌝,
-   fun e st => ⌜Safe st ∧ Good2 e⌝, fun _ => ⌜True⌝, ()⟩
+   fun e st => ⌜Safe st ∧ Good2 e ∧ SzLe s st⌝, fun _ => ⌜True⌝, ()⟩
 
 /-- normal form of a verification condition, with the invariants of this file -/
 macro "vcprep3" : tactic => `(tactic|
@@ -280,6 +280,7 @@ theorem std_toString_spec2 (s : St) (t : TId) (d1 : Nat) (hS : Safe s) (h0' : t 
       ⦃Q2 s (fun v st => ValOk st.thunks.size st.objs.size st.funcs.size v)⦄ := by
   unfold std_toString; bstd2
 
+set_option maxHeartbeats 1000000 in
 theorem std_mapWithKey_spec2 (s : St) (t0 t1 : TId) (d1 : Nat) (hS : Safe s) (h0' : t0 < s.thunks.size)
     (h1' : t1 < s.thunks.size) :
     ⦃fun st => ⌜st = s⌝⦄ std_mapWithKey rec t0 t1 d1
